@@ -9,7 +9,7 @@ From Coq Require Import List NArith ZArith Bool Lia ZifyBool ZifyNat ZifyN.
 From Coq Require String.
 From PB Require Import Base.PBytes Base.GoInt Wire.WireModel Wire.VarintP Wire.ScanP Wire.WireGoBaseP Wire.WireGoConsumeP
   Wire.WireGoAppendP Wire.WireGoP Wire.WireGoLoopP Gen.WireGo Msg.MsetGoRt Gen.MsetGo
-  Msg.MsetModel Msg.MsetWireP Msg.MsetP.
+  Msg.MsetModel Msg.MsetWireP Msg.MsetP Msg.MsetSetP.
 Ltac Zify.zify_post_hook ::= Z.div_mod_to_equations.
 Import ListNotations.
 Import String.StringSyntax.
@@ -306,4 +306,74 @@ Proof.
   - destruct H as (v & Ht & _). destruct wl; [rewrite Ht|rewrite E]; eexists; reflexivity.
   - destruct H as (Ht & H1 & H2). destruct (item_loop_errs _ _ _ _ _ _ E) as [H3 H4].
     destruct wl; [rewrite Ht|rewrite E]; destruct e; try congruence; eexists; reflexivity.
+Qed.
+
+(* ------------------------------------------------------------------ *)
+(* the translated writers followed by the translated reader             *)
+(* AppendFieldStart, the message subfield as marshal writes it, AppendFieldEnd *)
+Definition go_write_item (id : N) (p : list byte) : list Z :=
+  go_AppendFieldEnd (WireGo.go_AppendBytes (WireGo.go_AppendTag (go_AppendFieldStart [] (Z.of_N id)) 3 2) (zbytes p)).
+
+Lemma go_write_item_spec id p :
+  (id <= 2147483647)%N -> (N.of_nat (length p) < 2^64)%N ->
+  go_write_item id p = zbytes (append_item id p).
+Proof.
+  intros Hid Hp. unfold go_write_item, append_item, field_message.
+  change (@nil Z) with (zbytes []). rewrite go_AppendFieldStart_spec by exact Hid.
+  change 3 with (Z.of_N 3). change 2 with (Z.of_N 2).
+  rewrite (go_AppendTag_spec _ 3 2) by lia.
+  rewrite go_AppendBytes_spec by exact Hp.
+  rewrite go_AppendFieldEnd_spec. cbn [app]. now rewrite <- !app_assoc.
+Qed.
+
+Theorem go_item_roundtrip (wl : bool) (id : N) (p rest : list byte) :
+  valid_id id -> Z.of_nat (length (append_item id p ++ rest)) < 2^63 ->
+  let msg := zbytes (if wl then enc_bytes p else p) in
+  exists body,
+    (* what the translated writers produce is start tag + body *)
+    go_write_item id p = zbytes (enc_tag 1 3)%N ++ zbytes body /\
+    WireGo.go_ConsumeTag (go_write_item id p ++ zbytes rest) = Val (1, 3, Z.of_nat (length (enc_tag 1 3)%N)) /\
+    (* the translated reader returns the type id and the message ... *)
+    MsetGo.go_ConsumeFieldValue (zbytes body ++ zbytes rest) false wl
+      = Val (Z.of_N id, msg, Z.of_nat (length body), GoNil) /\
+    (* ... also when the message subfield precedes the type_id subfield *)
+    exists n,
+    MsetGo.go_ConsumeFieldValue
+      (zbytes (enc_tag 3 2 ++ enc_bytes p ++ enc_tag 2 0 ++ enc_varint id ++ enc_tag 1 4)%N ++ zbytes rest) false wl
+      = Val (Z.of_N id, msg, n, GoNil).
+Proof.
+  intros Hid Hlen msg. change (2^63) with 9223372036854775808 in Hlen.
+  assert (Hid' : (id <= 2147483647)%N) by (unfold valid_id, max_int32 in Hid; lia).
+  rewrite append_item_body in Hlen. rewrite !app_length in Hlen.
+  assert (Hp : (N.of_nat (length p) < 2^64)%N).
+  { change (2^64)%N with 18446744073709551616%N. unfold item_body, enc_bytes in Hlen. rewrite !app_length in Hlen. lia. }
+  exists (item_body id p).
+  rewrite go_write_item_spec by assumption. rewrite append_item_body, zbytes_app.
+  split; [reflexivity|]. split.
+  { rewrite <- app_assoc, <- !zbytes_app, go_ConsumeTag_spec.
+    rewrite (dec_tag_enc_tag 1 3) by (unfold valid_num; lia). cbn [zres_tag].
+    f_equal. f_equal. rewrite !app_length. lia. }
+  split.
+  { rewrite <- zbytes_app. rewrite go_ConsumeFieldValue_eq_model; [|change (2^63) with 9223372036854775808; rewrite app_length; lia|discriminate].
+    rewrite item_body_roundtrip by assumption. cbn [zres_item]. subst msg. f_equal. f_equal. f_equal. rewrite !app_length. lia. }
+  eexists. rewrite <- zbytes_app.
+  rewrite go_ConsumeFieldValue_eq_model; [| |discriminate].
+  - rewrite <- !app_assoc. rewrite item_body_swapped, item_body_roundtrip by assumption. cbn [zres_item]. reflexivity.
+  - change (2^63) with 9223372036854775808. unfold item_body in Hlen. rewrite !app_length in *. lia.
+Qed.
+
+(* SizeField + SizeTag(3) + SizeBytes(len) of the translation = the length of
+   what the translated writers append *)
+Theorem go_size_eq_length id p :
+  valid_id id -> (N.of_nat (length p) < 2^62)%N ->
+  go_SizeField (Z.of_N id) + WireGo.go_SizeTag 3 + WireGo.go_SizeBytes (len (zbytes p)) = len (go_write_item id p).
+Proof.
+  intros Hid Hp.
+  assert (Hid' : (id <= 2147483647)%N) by (unfold valid_id, max_int32 in Hid; lia).
+  assert (Hp64 : (N.of_nat (length p) < 2^64)%N).
+  { change (2^62)%N with 4611686018427387904%N in Hp. change (2^64)%N with 18446744073709551616%N. lia. }
+  rewrite go_write_item_spec by assumption. rewrite !len_zbytes, go_SizeField_spec by exact Hid'.
+  change 3 with (Z.of_N 3). rewrite go_SizeTag_spec by lia.
+  rewrite <- nat_N_Z. rewrite go_SizeBytes_spec by exact Hp.
+  pose proof (append_item_length id p Hid Hp64) as H. unfold size_item, field_message in H. lia.
 Qed.
